@@ -16,4 +16,5 @@ DealOK == LET e == Evs[k] IN e.kind = "deal" =>
               /\ e.t = NT /\ e.m = NM
               /\ Len(e.bounds) = NT * e.n
               /\ \A j \in 1..Len(e.bounds) : e.bounds[j] = e.order
+              /\ (NT >= 1 => e.leak = 0)
 =============================================================================
